@@ -42,6 +42,11 @@ VOCAB = ["(", ")", "{", "}", "[", "]", ",", ".", "..", "-", "-=", "+", "+=", ":"
 # ties between the function bodies translated from the Rust source on every run (Gen/Fns.lean) and the hand-written models
 THEOREM_MODULES.append("Yarel.Props.FnsTie.Compiler")
 REQUIRED_THEOREMS += ['precedence_from_discr', 'precedence_from_panics_iff']
+# declarations as compiled (Props/FnsTie/Declare, Resolver; bodies as read on this run): a declaration always pushes its local (or reports the
+# limit), so the `mark_last_initialised` that follows stamps the local just declared - also in error recovery, where the "name" is whatever
+# token came before
+THEOREM_MODULES += ["Yarel.Props.FnsTie.Declare", "Yarel.Props.FnsTie.Resolver"]
+REQUIRED_THEOREMS += ['declare_variable_spec', 'add_local_spec', 'mark_last_initialised_spec', 'declared_then_initialised_is_found']
 
 
 def mutate(rng, src):
@@ -114,6 +119,49 @@ def limit_declaration_cases():
     return out
 
 
+RECOVERY_FAULTS = [
+    "var = 1;", "var ;", "fn () { }", "fn (a) { return a; }", "class { }", "class X { fn (self) { } }", "var 1 = 2;", "for in [1] { }", "for x [1] { }",
+    "import ;", "import 5;", "fn f( { }", "fn f(a, ) { }", "var x = ;", "x = ;", "if { }", "while { }", "try { } catch { }", "try { }", "return ;;", "break;",
+    "var l = || ;", "var v = [1, ;", "var m = { : 1};", "#[derive] class Y {}", "class Z { #[static] }", "print(;", "var t = 1 +;", "var s = \"${\";",
+    "fn g(a, a) { }", "var d = 1; var d = 2;", "class Q { fn m() { self; } }", "super.x;", "self;",
+]
+RECOVERY_CONTEXTS = [
+    ("top", "%s"), ("block", "{ %s }"), ("first-in-fn", "fn w%d() { %s }"), ("after-local-in-fn", "fn w%d() { var ok = 1; %s }"),
+    ("method", "class C%d { fn m(self) { %s } }"), ("nested-block-in-fn", "fn w%d() { { %s } }"), ("loop", "while true { %s break; }"),
+    ("lambda", "var l%d = || { %s };"), ("if", "if true { %s } else { %s }"), ("try", "try { %s } finally { var z = 1; }"),
+    ("ctor", "class D%d { #[constructor] fn new(self) { %s } }"), ("for", "for q in [1] { %s }"),
+]
+
+
+def recovery_pair_cases(thorough):
+    """Recovery after one syntax error must not turn later code into a crash: every ORDERED PAIR of faulty statements (declarations
+    without a name, missing operands, missing delimiters, misplaced keywords ...), each in one of twelve contexts (top level, first or
+    later statement of a block / function / method / constructor / lambda / loop / branch / try), side by side at top level and inside
+    one enclosing function.  The compiler must answer each with located messages."""
+    out = []
+    nf, nc = len(RECOVERY_FAULTS), len(RECOVERY_CONTEXTS)
+    k = 0
+    for i, f1 in enumerate(RECOVERY_FAULTS):
+        for j, f2 in enumerate(RECOVERY_FAULTS):
+            combos = [(a, b) for a in range(nc) for b in range(nc)] if thorough else [((i + j) % nc, (i * 5 + j * 3 + 1) % nc), ((i * 7 + j) % nc, (j + 2) % nc), (2, 2), (1, 5)]
+            for a, b in combos:
+                k += 1
+                def wrap(ci, f, uid):
+                    name, tpl = RECOVERY_CONTEXTS[ci]
+                    n_s = tpl.count("%s")
+                    args = []
+                    for part in tpl.replace("%d", "\0").replace("%s", "\1").split("\1")[:-1]:
+                        pass
+                    # fill %d with uid, %s with the fault (both occurrences for the if/else context)
+                    t = tpl.replace("%d", str(uid))
+                    return t.replace("%s", f)
+                p1, p2 = wrap(a, f1, k * 2), wrap(b, f2, k * 2 + 1)
+                out.append(("recover:%d:%d:%s:%s:flat" % (i, j, RECOVERY_CONTEXTS[a][0], RECOVERY_CONTEXTS[b][0]), p1 + "\n" + p2 + "\nprint(1);\n"))
+                if (i + j + a + b) % 2 == 0 or thorough:
+                    out.append(("recover:%d:%d:%s:%s:in-fn" % (i, j, RECOVERY_CONTEXTS[a][0], RECOVERY_CONTEXTS[b][0]), "fn outer%d() {\n%s\n%s\nreturn 1;\n}\nprint(outer%d());\n" % (k, p1, p2, k)))
+    return out
+
+
 def nesting(depth, kind):
     if kind == "paren":
         return "var x = " + "(" * depth + "1" + ")" * depth + ";\n"
@@ -181,6 +229,7 @@ def correspondence(ctx, model_ok=True):
     # programs sitting on the encoding limits: every construct that declares locals at 252..256 locals, and the limit programs of C04
     # (jump distances, operand counts, constants, captured variables): the compiler must answer, with a function or located messages
     cases += limit_declaration_cases()
+    cases += recovery_pair_cases(ctx.thorough)
     from props import c04 as _c04
     cases += [("limit:" + n, src) for n, src, _ in _c04.limit_programs() if ctx.thorough or ":constants:" not in n and ":constvalues:" not in n]
     lines = [vlib.case_line("c%d" % i, ["C:" + vlib.hx(src)], bytecode=1) for i, (_, src) in enumerate(cases)]
